@@ -54,7 +54,9 @@ Definition upd (fs : hostfs) (p : path) (c : list byte) : hostfs :=
 
 (* ---------- VirtualFile.get_coco_files ---------- *)
 (* The disk reader is tried first; only a VirtualFileValidationError (Diag) moves on to the cassette
-   reader, and only a VirtualFileValidationError there falls back to BINARY.  Any other exception
+   reader; its listing makes the content a CASSETTE only if it holds at least one file or the buffer
+   is empty (`if coco_files or not buffer`); otherwise, and on a VirtualFileValidationError there,
+   the content is BINARY with no files.  Any other exception
    escapes (the CLIs print it).  A buffer shorter than 161,280 bytes makes DiskFile.list_files raise;
    one LONGER than that is outside MDisk.list_files' domain (Unmodelled) — known finding
    tape_sniffed_as_disk lives there. *)
@@ -63,7 +65,10 @@ Definition sniff (buf : list byte) : res (list cocofile * vkind) :=
   | Ok ds => Ok (map of_dfile ds, KDsk)
   | Diag _ =>
       match MCassette.list_files buf with
-      | Ok cs => Ok (map of_cfile cs, KCas)
+      | Ok cs => match cs, buf with
+                 | [], _ :: _ => Ok ([], KBin)     (* no tape file found in non-empty content: not a cassette *)
+                 | _, _ => Ok (map of_cfile cs, KCas)
+                 end
       | Diag _ => Ok ([], KBin)
       | Internal c => Internal c
       | OutOfFuel => OutOfFuel
